@@ -472,7 +472,7 @@ func runC13(tier string) int {
 			"known_findings_seen":                  rep.known,
 			"violating_runs_before_dedup":          len(bad),
 			"logical_time":                         stepEvidence(),
-			"no_recover_panics_tolerated_as_documented": c13NoRecoverDocumented,
+			"no_recover_panics_tolerated_as_documented":                c13NoRecoverDocumented,
 			"exponential_parses_without_cache_tolerated_as_documented": c13CacheDocumented,
 			"components": map[string]any{"real": []string{"main.go", "pigeon.go (front-end)", "ast", "builder", "golang.org/x/tools/imports", "flag parsing of invalid flags (unmodified binary as a subprocess)"}, "stub": []string{"os files/streams/exit (simos)", "map iteration order fixed ascending (simmap)"}},
 			"excluded":   "-h/-help (a help request, not a generation); whether accepted output compiles (C04)",
